@@ -62,52 +62,4 @@ PushFloatRes(s, r) ==
   ELSE IF r.t = "nan" THEN FiredH(PushOn(s, "float", FQNaN), <<Hole(<<"float", 1>>, "nan")>>)
   ELSE FiredH(PushOn(s, "float", 0), <<Hole(<<"float", 1>>, "float")>>)
 
----------------------------------------------------------------------------
-(* matching a concrete state against a result *)
-RECURSIVE CountIn(_, _)
-CountIn(s, x) == IF s = <<>> THEN 0 ELSE (IF Head(s) = x THEN 1 ELSE 0) + CountIn(Tail(s), x)
-IsPerm(a, b) == Len(a) = Len(b) /\ \A i \in 1..Len(a) : CountIn(a, a[i]) = CountIn(b, a[i])
-SameSet(a, b) == Range(a) = Range(b)
-
-ClassOK(h, v, placeholder) ==
-  CASE h.c = "int"    -> TRUE
-    [] h.c = "float"  -> TRUE
-    [] h.c = "bool"   -> TRUE
-    [] h.c = "name"   -> TRUE
-    [] h.c = "nan"    -> FIsNaN(v)
-    [] h.c = "perm"   -> IsPerm(v, placeholder)
-    [] h.c = "sameset" -> SameSet(v, placeholder)
-    [] h.c = "irange" -> v >= h.a /\ v < h.b
-    [] h.c = "frange" -> ~FIsNaN(v) /\ ~FLt(v, h.a) /\ FLt(v, h.b)
-    [] h.c = "near"   -> \/ v = placeholder
-                         \/ (~FIsNaN(v) /\ ~FIsNaN(placeholder) /\ FNegBit(v) = FNegBit(placeholder)
-                             /\ FMag(v) - FMag(placeholder) <= h.a /\ FMag(placeholder) - FMag(v) <= h.a)
-    [] h.c = "len"    -> Len(v) = h.a
-    [] h.c = "oneof"  -> v = h.a \/ v = h.b
-    [] OTHER          -> FALSE
-
-HolesUnder(holes, f)      == SelectSeq(holes, LAMBDA h : h.p[1] = f)
-HolesAt2(holes, f, i)     == SelectSeq(holes, LAMBDA h : h.p[1] = f /\ h.p[2] = i /\ Len(h.p) = 2)
-HolesAt3(holes, f, i)     == SelectSeq(holes, LAMBDA h : h.p[1] = f /\ h.p[2] = i /\ Len(h.p) = 3)
-HolesAt3j(holes, f, i, j) == SelectSeq(holes, LAMBDA h : h.p[1] = f /\ h.p[2] = i /\ Len(h.p) = 3 /\ h.p[3] = j)
-
-MatchElem(holes, f, i, pv, cv) ==
-  LET h2 == HolesAt2(holes, f, i)
-      h3 == HolesAt3(holes, f, i)
-  IN IF h2 # <<>> THEN ClassOK(h2[1], cv, pv)
-     ELSE IF h3 # <<>> THEN
-          /\ Len(pv) = Len(cv)
-          /\ \A j \in 1..Len(pv) :
-               LET hj == HolesAt3j(holes, f, i, j) IN
-               IF hj # <<>> THEN ClassOK(hj[1], cv[j], pv[j]) ELSE pv[j] = cv[j]
-     ELSE pv = cv
-
-MatchField(res, c, f) ==
-  IF HolesUnder(res.holes, f) = <<>> THEN res.post[f] = c[f]
-  ELSE /\ Len(res.post[f]) = Len(c[f])
-       /\ \A i \in 1..Len(c[f]) : MatchElem(res.holes, f, i, res.post[f][i], c[f][i])
-
-Matches(res, c) == \A f \in AllFields : MatchField(res, c, f)
-\* the fields on which a concrete state differs from a result (diagnostics)
-Mismatch(res, c) == {f \in AllFields : ~MatchField(res, c, f)}
 =============================================================================
